@@ -33,7 +33,7 @@ For some constraints, the graph is automatically inferred from the input.
 from typing import Any, Iterator, List, Optional, Sequence, Tuple, Union, cast, overload
 
 from .array import Array2D, BoolArray1D, BoolArray2D, IntArray1D, IntArray2D, _infer_shape
-from .constraints import IntExpr, BoolExpr, Op, count_true, then
+from .constraints import IntExpr, BoolExpr, Op, count_true, fold_or, then
 from .expr import BoolExprLike, IntExprLike
 from .grid_frame import BoolGridFrame, BoolInnerGridFrame
 from .configuration import config
@@ -1010,7 +1010,8 @@ def _active_edges_single_path(
             solver.ensure(is_passed[i].then((degree == 1) | (degree == 2)))
             solver.ensure((~is_passed[i]).then(degree == 0))
             is_endpoint.append(degree == 1)
-        solver.ensure(count_true(is_endpoint) == 2)
+        # a path has exactly two endpoints; the empty edge set (no path at all) is allowed too
+        solver.ensure(count_true(is_endpoint) == fold_or(is_active_edge).cond(2, 0))
         line_graph = graph.line_graph()
         _active_vertices_connected(
             solver, is_active_edge, line_graph, acyclic=False, use_graph_primitive=True
